@@ -351,6 +351,12 @@ def run_extract(ctx, p):
     """base-level extraction call (the contracts judge); deg vs rad at the boundary"""
     import spatialmath.base as base
     R = np.asarray(p['R'], dtype=np.float64)
+    if p.get('noisy') is not None:
+        # the same rotation as it comes out of a computation (A (A' R)): its small entries carry ordinary rounding noise instead of
+        # being correct to their own last digit, as the entries of a freshly constructed matrix are
+        A_ = np.asarray(p['noisy'], dtype=np.float64)
+        R = np.array(R)
+        R[:3, :3] = A_ @ (A_.T @ R[:3, :3])
     if p.get('layout'):
         R = gen.layout(R, p['layout'])      # Fortran-ordered (e.g. loaded from a .mat file, or a transposed view), frozen, strided
     api = p['api']
@@ -587,6 +593,8 @@ def run(ctx):
         if rng.random() < 0.3:
             R = ref.rt2tr(R, gen.transl(rng))
         p = dict(api=api, R=R, opts=opts)
+        if rng.random() < 0.2 and api != 'tr2xyt':
+            p['noisy'] = gen.so3(rng)
         if rng.random() < 0.25:
             p['layout'] = gen.LAYOUTS[rng.integers(4)]
         drive(RUNNERS, ctx, 'extract', p)
